@@ -14,6 +14,8 @@
 import EasyMl.Lemmas.Decomp
 import Mathlib.Tactic.NormNum
 import Mathlib.LinearAlgebra.Matrix.NonsingularInverse
+import EasyMl.Lemmas.DecompArith
+import EasyMl.Model.ApiSurface
 
 namespace EasyMl.C08
 open EasyMl EasyMl.Decomp Finset
@@ -692,6 +694,114 @@ example : NumHom (id : Fp → Fp) :=
     fun _ _ => rfl, fun _ _ => rfl⟩
 
 end natural
+
+/-! ### round: reflections, congruence, composition with C03, API surface -/
+
+/-- **`H·x = −a·e₀`**: the Householder matrix built from a real column `x` maps `x` itself to
+    `−a` times the first unit vector, where `a = ‖x‖` if the leading entry is positive and `−‖x‖`
+    otherwise (`householderA`), so `a·a = ‖x‖²`; every entry below the first is annihilated.  This
+    is what makes `R` upper triangular (`qr_upper`). -/
+theorem householder_reflects (x : List ℝ) :
+    (toMat x.length x.length (householder x)).mulVec (fun i : Fin x.length => x.getD i 0)
+      = (fun i : Fin x.length => if (i : ℕ) = 0 then -householderA x else 0) ∧
+    householderA x * householderA x = sumSq x := by
+  constructor
+  · funext i
+    simp only [Matrix.mulVec, dotProduct, toMat_apply]
+    rw [Fin.sum_univ_eq_sum_range (fun k => get (householder x) i k * x.getD k 0) x.length]
+    exact householder_reflects_aux x i i.isLt
+  · have hnn : 0 ≤ sumSq x := by rw [sumSq_eq]; exact sum_nonneg (fun t _ => mul_self_nonneg _)
+    unfold householderA
+    split
+    · exact Real.mul_self_sqrt hnn
+    · rw [neg_mul_neg]; exact Real.mul_self_sqrt hnn
+
+/-- **`Q` is orthogonal for every real `M × N` input with `M ≥ N`, of any rank** (a product of
+    Householder reflections, each symmetric and involutive): `QᵀQ = QQᵀ = 1`. -/
+theorem qr_orthogonal (A Q R : Matrix ℝ) (h : qr A = some (Q, R)) :
+    (toMat A.rows A.rows Q).transpose * toMat A.rows A.rows Q = 1 ∧
+    toMat A.rows A.rows Q * (toMat A.rows A.rows Q).transpose = 1 := by
+  obtain ⟨_, _, _, _, h5, h6⟩ := qr_product A Q R h
+  exact ⟨h5, h6⟩
+
+section congr
+variable {α : Type} [Add α] [Sub α] [Mul α] [Div α] [Neg α] [Zero α] [One α] [RealFns α] [NumOrd α]
+
+/-- **A decomposition of a view is the decomposition of the materialised matrix**: the three
+    models depend on their input only through its size and its cells (Cholesky and LDLᵀ only
+    through the cells on and below the diagonal), so any two inputs with the same size and the same
+    cell function — a tensor, a lazily transposed / ranged / reversed view of another one, a matrix
+    — have the same outcome, for every element type. -/
+theorem factorisations_congr (A B : Matrix α) (hr : A.rows = B.rows) (hc : A.columns = B.columns) :
+    ((∀ i j, i < A.rows → j ≤ i → get A i j = get B i j) → cholesky A = cholesky B ∧ ldlt A = ldlt B) ∧
+    ((∀ i j, i < A.rows → j < A.columns → get A i j = get B i j) → qr A = qr B) :=
+  ⟨fun h => ⟨cholesky_congr A B hr hc h, ldlt_congr A B hr hc h⟩, fun h => qr_congr A B hr hc h⟩
+
+/-- Non-vacuity: two different tensors with the same lower triangle (the strict upper triangle is
+    never read). -/
+example : cholesky (⟨[4, 9, 2, 5], 2, 2⟩ : Matrix ℝ) = cholesky ⟨[4, 7, 2, 5], 2, 2⟩ := by
+  apply cholesky_congr _ _ rfl rfl
+  intro i j hi hj
+  have hi' : i < 2 := hi
+  interval_cases i <;> interval_cases j <;> simp [Decomp.get, EasyMl.Matrix.getIndex]
+
+end congr
+
+/-- **The product of the models is C03's product** (`Arith.mMatMul`, the model of
+    `Matrix * Matrix` on `MatrixRef` views): for operands of matching non-empty shapes the two
+    models return the same matrix, any element type. -/
+theorem matMul_is_C03 {α : Type} [Add α] [Mul α] [Zero α] {n m k : ℕ} (l r : Matrix α)
+    (hl : Shaped n (m + 1) l) (hr : Shaped (m + 1) k r) (hn : 1 ≤ n) (hk : 1 ≤ k) :
+    Arith.mMatMul (Arith.MView.ofMatrix l) (Arith.MView.ofMatrix r) = .ok (matMul l r) :=
+  matMul_eq_C03 hl hr hn hk
+
+example : Shaped 2 2 (⟨[1, 2, 3, 4], 2, 2⟩ : Matrix ℚ) := ⟨rfl, rfl, rfl⟩
+
+/-- **Producer → consumer** (the `consumers=ok` facts): the Cholesky factor of a symmetric real
+    input, multiplied by its transpose through C03's model of the matrix product, reproduces the
+    input. -/
+theorem cholesky_factor_product_via_C03 (A L : Matrix ℝ) (h : cholesky A = some L) (hn : 1 ≤ A.rows)
+    (hsym : (toMat A.rows A.rows A).transpose = toMat A.rows A.rows A) :
+    ∃ P, Arith.mMatMul (Arith.MView.ofMatrix L) (Arith.MView.ofMatrix (transposeM L)) = .ok P ∧
+      Shaped A.rows A.rows P ∧ toMat A.rows A.rows P = toMat A.rows A.rows A := by
+  obtain ⟨_, hsh, _, _, _, hfull⟩ := cholesky_sound A L h
+  obtain ⟨m, hm⟩ : ∃ m, A.rows = m + 1 := ⟨A.rows - 1, by omega⟩
+  have hT : Shaped A.rows A.rows (transposeM L) := by
+    unfold transposeM; rw [hsh.1, hsh.2.1]; exact shaped_ofFn _ _ _
+  have hTm : toMat A.rows A.rows (transposeM L) = (toMat A.rows A.rows L).transpose := by
+    ext i j
+    unfold transposeM
+    rw [toMat_apply, hsh.1, hsh.2.1, get_ofFn _ _ _ _ _ i.isLt j.isLt]
+    rfl
+  have hsh' : Shaped A.rows (m + 1) L := by rw [← hm]; exact hsh
+  have hT' : Shaped (m + 1) A.rows (transposeM L) := by rw [← hm]; exact hT
+  refine ⟨matMul L (transposeM L), matMul_eq_C03 hsh' hT' hn hn, shaped_matMul hsh' hT', ?_⟩
+  rw [toMat_matMul hsh hT, hTm]
+  exact hfull hsym
+
+/-- … and the transpose can be taken by C11's model of `Matrix::transpose`
+    (`from_fn((columns, rows), |(c, r)| self.get(r, c))`): the whole consumer chain
+    `L * L.transpose()` is stated with the other properties' models. -/
+theorem cholesky_factor_consumers_C11_C03 (A L : Matrix ℝ) (h : cholesky A = some L) (hn : 1 ≤ A.rows)
+    (hsym : (toMat A.rows A.rows A).transpose = toMat A.rows A.rows A) :
+    ∃ T P, L.transposeP = .ok T ∧
+      Arith.mMatMul (Arith.MView.ofMatrix L) (Arith.MView.ofMatrix T) = .ok P ∧
+      toMat A.rows A.rows P = toMat A.rows A.rows A := by
+  obtain ⟨_, hsh, _⟩ := cholesky_sound A L h
+  have hinv : L.Inv := ⟨by rw [hsh.2.2, hsh.1, hsh.2.1], by rw [hsh.1]; exact hn, by rw [hsh.2.1]; exact hn⟩
+  obtain ⟨P, hP, _, hPA⟩ := cholesky_factor_product_via_C03 A L h hn hsym
+  exact ⟨transposeM L, P, transposeP_eq_transposeM L hinv, hP, hPA⟩
+
+/-! ### API surface of the result structs (`Model/ApiSurface.lean`) -/
+
+/-- `from_unchecked` stores its arguments in field (name) order; `clone_from` leaves exactly a clone
+    of the source, whatever the target held; `Display` prints each factor under its own label. -/
+theorem result_struct_surface {F : Type} (a b t1 t2 : F) (la lb : String) (sh : F → String) :
+    (Api.fromUnchecked a b).first = a ∧ (Api.fromUnchecked a b).second = b ∧
+    Api.cloneFrom (Api.fromUnchecked t1 t2) (Api.fromUnchecked a b) = Api.clone (Api.fromUnchecked a b) ∧
+    Api.clone (Api.fromUnchecked a b) = Api.fromUnchecked a b ∧
+    Api.display la lb sh (Api.fromUnchecked a b) = la ++ ":\n" ++ sh a ++ "\n" ++ lb ++ ":\n" ++ sh b :=
+  ⟨rfl, rfl, rfl, rfl, rfl⟩
 
 /-! ### shape rejection -/
 
